@@ -107,8 +107,19 @@ def classify(base, mut):
     return "repaired:" + {0: "magic", 1: "magic", 2: "magic", 3: "magic", 7: "magic", 40: "endian-tag", 36: "header-size"}[mut[1]]
 
 
-def judge(name, base, mut):
-    """-> None | (key, msg)"""
+def judge(name, base, mut, repeat=1):
+    """-> None | (key, msg).  repeat > 1 (replay): the history 'intact file loaded, dropped, corrupted copy loaded' is run
+    several times in the same process; a single acceptance is a violation (a correct parser never accepts, so repeating
+    cannot raise a false alarm; it makes acceptance that depends on object-address reuse reproducible)."""
+    r = None
+    for _ in range(repeat):
+        r = _judge_once(name, base, mut)
+        if r:
+            return r
+    return r
+
+
+def _judge_once(name, base, mut):
     from androguard.core import dex
     _install()
     buf = mutate(base, mut)
@@ -194,7 +205,7 @@ def run_shard(ctx, shard):
 
 def replay(ctx, w):
     base = _files()[w["file"]]
-    r = judge(w["file"], base, tuple(w["mut"]))
+    r = judge(w["file"], base, tuple(w["mut"]), repeat=200)
     return r[1] if r else None
 
 
